@@ -211,6 +211,30 @@ fn k_fv_from_vec() {
     }
 }
 
+/// K.fv.from.string -- String class: exactly `len` bytes are consumed and kept (as text); too short => Err.
+/// `String::from_utf8_lossy` is stubbed by the byte-preserving identity (what it is on valid UTF-8): the harness is about
+/// WHICH bytes the value is built from, not about the replacement of invalid sequences (known finding).
+#[kani::proof]
+#[kani::stub(std::string::String::from_utf8_lossy, lossy_on_valid_utf8)]
+#[kani::unwind(18)]
+fn k_fv_from_string() {
+    let buf: [u8; 17] = kani::any();
+    let i = any_slice(&buf);
+    let len: u16 = kani::any();
+    match FieldValue::from_field_type(i, FieldDataType::String, len) {
+        Ok((rest, FieldValue::String(s))) => {
+            kani::cover!(true, "ok");
+            let v = s.as_bytes();
+            assert!((len as usize) <= i.len() && v.len() == len as usize);
+            assert!(rest.len() == i.len() - len as usize && rest.as_ptr() == i[len as usize..].as_ptr());
+            let mut k = 0;
+            while k < v.len() { assert!(v[k] == i[k]); k += 1; }
+        }
+        Ok(_) => assert!(false),
+        Err(_) => { kani::cover!(true, "err"); assert!((len as usize) > i.len()); }
+    }
+}
+
 /// K.fv.from.unknown.on -- feature parse_unknown_fields ON: Unknown class copies `len` bytes into Vec
 #[cfg(feature = "parse_unknown_fields")]
 #[kani::proof]
